@@ -153,6 +153,10 @@ class Prop:
                     op = {"k": "watch", "o": o, "name": name}
                     if listener and r.random() < 0.6:
                         op["name"] = r.choice(sorted(listener))
+                    if r.random() < 0.4:
+                        # ... or the handler registered earlier is removed again: whatever
+                        # governs the name goes on governing it
+                        op["k"] = "unwatch"
                 if uname is not None and r.random() < 0.5:
                     # assign a list and mutate it in place
                     op = {"k": "mutate", "o": o, "name": uname}
@@ -314,11 +318,25 @@ class Prop:
             if k == "watch":
                 # registering a handler (possibly the very first use of the name, and the
                 # object's first instance-trait operation): no value changes
-                _, e = sut(o.on_trait_change, lambda: None, name)
-                if e is not None:
-                    raise Violation("C13.watch", "on_trait_change(h, %r) raised %r" % (name, e), i)
+                wh = rec.setdefault("watchers", {})
+                if name not in wh:
+                    wh[name] = lambda: None
+                    _, e = sut(o.on_trait_change, wh[name], name)
+                    if e is not None:
+                        raise Violation("C13.watch", "on_trait_change(h, %r) raised %r"
+                                        % (name, e), i)
                 env.end_op()
                 env.token("watch")
+                continue
+            if k == "unwatch":
+                wh = rec.setdefault("watchers", {})
+                if name in wh:
+                    _, e = sut(o.on_trait_change, wh.pop(name), name, remove=True)
+                    if e is not None:
+                        raise Violation("C13.watch", "removing the handler on %r raised %r"
+                                        % (name, e), i)
+                env.end_op()
+                env.token("unwatch")
                 continue
             if name in rec["itraits"]:
                 pol, why = rec["itraits"][name], "instance trait"
